@@ -242,6 +242,11 @@ func (o *OvsdbServer) Monitor(client *rpc2.Client, args []json.RawMessage, reply
 	if err := json.Unmarshal(args[2], &request); err != nil {
 		return err
 	}
+	for t, r := range request {
+		if r == nil {
+			return fmt.Errorf("monitor request for table %s is null", t)
+		}
+	}
 	// the initial contents are read from the committed database: a monitor
 	// must not be registered while a transaction is between notifying the
 	// monitors and being committed, or it would never learn of it
@@ -300,6 +305,11 @@ func (o *OvsdbServer) MonitorCond(client *rpc2.Client, args []json.RawMessage, r
 	if err := json.Unmarshal(args[2], &request); err != nil {
 		return err
 	}
+	for t, r := range request {
+		if r == nil {
+			return fmt.Errorf("monitor request for table %s is null", t)
+		}
+	}
 	// the initial contents are read from the committed database: a monitor
 	// must not be registered while a transaction is between notifying the
 	// monitors and being committed, or it would never learn of it
@@ -350,6 +360,11 @@ func (o *OvsdbServer) MonitorCondSince(client *rpc2.Client, args []json.RawMessa
 	var request map[string]*ovsdb.MonitorRequest
 	if err := json.Unmarshal(args[2], &request); err != nil {
 		return err
+	}
+	for t, r := range request {
+		if r == nil {
+			return fmt.Errorf("monitor request for table %s is null", t)
+		}
 	}
 	// the initial contents are read from the committed database: a monitor
 	// must not be registered while a transaction is between notifying the
